@@ -32,6 +32,7 @@ def run(repo, run, tier):
     t_eval_rule(repo, run, fn)
     t_eval_multiset(repo, run, fn)
     first_step_bounded(repo, run, fn)
+    clamped_step_bounded(repo, run)
 
 
 def construction(repo, run, fn):
@@ -383,3 +384,20 @@ def first_step_bounded(repo, run, fn):
         run.report("C18.8", DS, calls[0], "the initial step `%s` is not bounded by max_step when the caller passes first_step (the bound is applied, if at all, only to the "
                                           "default): the first recorded step is then as long as first_step, and the clipping callback acts only from the second step on" % src(value)[:160],
                    text="initial step not bounded by max_step")
+
+
+# ------------------------------------------------------------------------------------------------
+def clamped_step_bounded(repo, run):
+    """'no recorded step is longer than max_step': the facade bounds the first step (C18.8) and, through its callback, `dt` after every step (C18.5); the
+    one step integrate() does not take from `dt` is the clamped last step `tf - t[counter]` of each integrate() call (one per t_eval point).  That step is
+    within max_step only because the clamp is taken exactly when |dt| > |tf - t[counter]|: any slack (`1.01*|dt| > ...`) records a step up to that much
+    longer than max_step, which the callback never sees."""
+    from .c03 import _final_predicate
+    from ..imodel import IntegrateModel
+    rid = run.rule("C18.9", "the only step integrate() takes that is not the (clipped) dt -- the clamp `tf - t[counter]` of the last step of every integrate() call -- "
+                            "is taken exactly when |self.dt| > |tf - t[counter]|, so its magnitude is below the clipped dt", floor=1)
+    m = IntegrateModel(repo)
+    fs = m.final_step()
+    if fs is None or fs["clamp"] is None or "cond" not in fs:
+        raise AnalysisError("integrate(): the clamp of the last step was not found")
+    _final_predicate(run, rid, m, m.canon, fs, rule_id="C18.9")
